@@ -47,3 +47,16 @@ Print Assumptions voprf_unblind_exact.
 Print Assumptions token_blind_independent_voprf.
 Print Assumptions rsa_unblind_exact.
 Print Assumptions token_blind_independent_rsa.
+
+(** the VOPRF half at the arithmetic the harness EXECUTES (Model/Derive.v [mulm], [invm]) for every prime group order q:
+    the unblinded evaluation is k * x whatever the non-zero blind, so two blinds give the same token *)
+From Coq Require Import ZArith NArith Znumtheory.
+From PatVerif Require Import Model.Derive Proofs.ZqP.
+Theorem voprf_unblind_executed : forall q x k beta, prime (Z.of_N q) -> (beta mod q <> 0)%N ->
+  mulm q (invm q beta) (mulm q k (mulm q beta x)) = mulm q k x.
+Proof. exact exec_voprf_unblind. Qed.
+Theorem token_blind_independent_executed : forall q x k b1 b2, prime (Z.of_N q) -> (b1 mod q <> 0)%N -> (b2 mod q <> 0)%N ->
+  mulm q (invm q b1) (mulm q k (mulm q b1 x)) = mulm q (invm q b2) (mulm q k (mulm q b2 x)).
+Proof. exact exec_voprf_blind_independent. Qed.
+Print Assumptions voprf_unblind_executed.
+Print Assumptions token_blind_independent_executed.
